@@ -86,11 +86,13 @@ func (o *oracle) readTs() uint64 {
 	o.readMark.Begin(readTs)
 	o.Unlock()
 
+	y.VerifPoint("orc.read.begin")
 	// Wait for all txns which have no conflicts, have been assigned a commit
 	// timestamp and are going through the write to value log and LSM tree
 	// process. Not waiting here could mean that some txns which have been
 	// committed would not be read.
 	y.Check(o.txnMark.WaitForMark(context.Background(), readTs))
+	y.VerifPoint("orc.read.done")
 	return readTs
 }
 
@@ -532,6 +534,7 @@ func (txn *Txn) commitAndSend() (func() error, error) {
 		return nil, ErrConflict
 	}
 
+	y.VerifPoint("commit.ts")
 	keepTogether := true
 	setVersion := func(e *Entry) {
 		if e.version == 0 {
@@ -595,8 +598,10 @@ func (txn *Txn) commitAndSend() (func() error, error) {
 		orc.doneCommit(commitTs)
 		return nil, err
 	}
+	y.VerifPoint("commit.sent")
 	ret := func() error {
 		err := req.Wait()
+		y.VerifPoint("commit.applied")
 		// Wait before marking commitTs as done.
 		// We can't defer doneCommit above, because it is being called from a
 		// callback here.
